@@ -359,6 +359,7 @@ fn fault_kind(s: &str) -> io::ErrorKind {
         "timedout" => io::ErrorKind::TimedOut,
         "invaliddata" => io::ErrorKind::InvalidData,
         "brokenpipe" => io::ErrorKind::BrokenPipe,
+        "interrupted" => io::ErrorKind::Interrupted,
         _ => io::ErrorKind::Other,
     }
 }
